@@ -7,6 +7,9 @@
  W2 (K1+K2) checked domain types are only constructed behind their validations (shared with
     C07-R1 / C02-A5): here the Merkle `Proof` and `Transaction`.
 Not decided: re-encode equivalence (round-trip equality over all inputs).
+ W3 (K4) no lossy integer conversion (`as` cast that narrows or changes signedness) in
+    hand-written code reachable from the decoders: distinct wire values would collapse to one
+    accepted value.
 """
 import re
 
@@ -268,8 +271,9 @@ def run(prog, rep):
         "conversion) the workspace call graph (trait calls resolved, drop glue included) is "
         "walked and every panic construct (unwrap/expect/panic!/assert!/index/arith asserts/"
         "panicking std methods) must be mechanically discharged or in the reasoned triage "
-        "table. Plus constructor discipline for merkle::Proof and Transaction. Decides absence "
-        "of reachable panic constructs in workspace code, not re-encode equivalence.")
+        "table. Plus constructor discipline for merkle::Proof and Transaction, and no lossy "
+        "integer cast on the decoding path (W3). Decides absence of reachable panic constructs "
+        "in workspace code, not re-encode equivalence.")
     rep.assumptions += [
         "third-party crates (prost, serde_json, tendermint, ed25519-consensus, brotli, "
         "penumbra/ibc types) are the trusted base and are not entered",
@@ -292,6 +296,54 @@ def run(prog, rep):
     rep.note(f"W1: {len(entries)} entries, {len(seen)} reachable workspace functions, "
              f"{n} potential panic constructs inspected")
     w2(prog, rep)
+    w3(prog, rep, seen)
+
+
+INT_BITS = {"u8": 8, "u16": 16, "u32": 32, "u64": 64, "u128": 128, "usize": 64,
+            "i8": 8, "i16": 16, "i32": 32, "i64": 64, "i128": 128, "isize": 64}
+
+
+def w3(prog, rep, seen):
+    """W3 (K4) no lossy integer conversion on the decoding path: an `as` cast that narrows or
+    changes signedness silently maps distinct wire values to one domain value (the accepted
+    value would not re-encode to the bytes it was decoded from).  Hand-written code reachable
+    from the decoders must use `try_from`/`From`; generated prost/tonic code is exempt (its
+    enum <-> i32 casts are width preserving) and serves as the positive example that the
+    extractor sees casts at all."""
+    from facts import op_local
+    n_gen = 0
+    bad = []
+    for owner in sorted(seen):
+        for b in prog.bodies_of(owner):
+            gen = "::generated::" in b.owner or "_serde_impl" in b.owner
+            for i, j, p, rv, line in b.assigns():
+                if rv[0] != "cast" or rv[1] != "IntToInt":
+                    continue
+                l = op_local(rv[2])
+                src = b.locals[l] if l is not None and l < len(b.locals) else \
+                    (rv[2][2] if rv[2][0] == "k" and len(rv[2]) > 2 else "?")
+                dst = rv[3] if len(rv) > 3 else "?"
+                if gen:
+                    n_gen += 1
+                    continue
+                if rv[2][0] == "k":
+                    continue        # a literal (e.g. the shift amount in `n >> 1`)
+                sb, db = INT_BITS.get(src), INT_BITS.get(dst)
+                if sb is None or db is None:
+                    continue        # enum discriminant / char / bool sources: not a width issue
+                lossy = db < sb or (src[0] != dst[0] and not (src[0] == "u" and db > sb))
+                if lossy:
+                    bad.append((owner, b, line, src, dst))
+    # positive example: generated code contains width-preserving casts the extractor must see
+    all_gen = sum(1 for b in prog.bodies if "::generated::" in b.owner
+                  for i, j, p, rv, line in b.assigns() if rv[0] == "cast" and rv[1] == "IntToInt")
+    rep.floor("W3", all_gen, 10, "IntToInt casts seen in generated code (extractor sanity)")
+    for owner, b, line, src, dst in bad:
+        rep.fail("W3", rep.nth(f"{owner}|lossy-cast:{src}->{dst}"),
+                 f"`as` cast {src} -> {dst} on the decoding path of {owner}: distinct wire values "
+                 "collapse to one accepted value (use try_from and reject)", f"{b.file}:{line}")
+    if not bad:
+        rep.ok("W3", "no-lossy-casts", f"{len(seen)} reachable functions, 0 lossy integer casts")
 
 
 TRIAGE_SEQ = {
